@@ -39,6 +39,18 @@ func jsonText(v interface{}) string {
 	return string(b)
 }
 
+// keyedView: the list without its list-level directive elements ("- $patch: replace" and the like), which carry no key
+func keyedView(g *g4) *g4 {
+	h := &g4{kind: 2}
+	for _, e := range g.vals {
+		if e.kind == 1 && len(e.keys) == 1 && e.keys[0] == "$patch" {
+			continue
+		}
+		h.vals = append(h.vals, e)
+	}
+	return h
+}
+
 // uniqueKeyTuples: every list of mappings that looks keyed has pairwise different (key, protocol) tuples.
 func uniqueKeyTuples(g *g4) bool {
 	if g == nil {
@@ -56,14 +68,18 @@ func uniqueKeyTuples(g *g4) bool {
 				texts[t] = true
 			}
 		}
-		if k := listKeyOf(g); k != "" {
+		kvw := keyedView(g)
+		if k := listKeyOf(kvw); k != "" {
+			g := kvw
 			seen := map[string]bool{}
 			for _, e := range g.vals {
 				t := e.get(k).text
-				if pr := e.get("protocol"); pr != nil && (k == "containerPort" || k == "port") {
-					t += "/" + pr.text
-				} else if k == "containerPort" || k == "port" {
-					t += "/"
+				if sk := secondaryKey(k); sk != "" {
+					if pr := e.get(sk); pr != nil {
+						t += "/" + pr.text
+					} else {
+						t += "/"
+					}
 				}
 				if seen[t] {
 					return false
@@ -71,13 +87,13 @@ func uniqueKeyTuples(g *g4) bool {
 				seen[t] = true
 			}
 			// a tuple with and one without protocol for the same port are merged by mergeValues: ambiguous
-			if k == "containerPort" || k == "port" {
+			if sk := secondaryKey(k); sk != "" {
 				ports := map[string]int{}
 				for _, e := range g.vals {
 					ports[e.get(k).text]++
 				}
 				for _, e := range g.vals {
-					if e.get("protocol") == nil && ports[e.get(k).text] > 1 {
+					if e.get(sk) == nil && ports[e.get(k).text] > 1 {
 						return false
 					}
 				}
@@ -98,9 +114,9 @@ func uniqueFirstKeys(g *g4) bool {
 		return true
 	}
 	if g.kind == 2 {
-		if k := listKeyOf(g); k == "containerPort" || k == "port" {
+		if k := listKeyOf(keyedView(g)); secondaryKey(k) != "" {
 			seen := map[string]bool{}
-			for _, e := range g.vals {
+			for _, e := range keyedView(g).vals {
 				t := e.get(k).text
 				if seen[t] {
 					return false
@@ -659,13 +675,16 @@ func hasElemReplaceDirective(v interface{}) bool {
 // ---------- composite merge keys (container ports, Service ports: containerPort|port + protocol) ----------
 
 func jsonListKey(l []interface{}) string {
-	for _, k := range []string{"containerPort", "port", "mountPath", "name", "key"} {
+	for _, k := range []string{"containerPort", "port", "topologyKey", "mountPath", "name", "key"} {
 		all := len(l) > 0
 		for _, e := range l {
 			m, ok := e.(map[string]interface{})
 			if !ok {
 				all = false
 				break
+			}
+			if _, dir := m["$patch"]; dir && len(m) == 1 {
+				continue // list-level directive element
 			}
 			if _, has := m[k]; !has {
 				all = false
@@ -710,9 +729,9 @@ func tupleRelation(t, p interface{}, partial, conflict *bool) {
 				if fmt.Sprint(tm[k]) != fmt.Sprint(pm[k]) {
 					continue
 				}
-				if k == "containerPort" || k == "port" {
-					tp, th := tm["protocol"]
-					pp, ph := pm["protocol"]
+				if sk := secondaryKey(k); sk != "" {
+					tp, th := tm[sk]
+					pp, ph := pm[sk]
 					switch {
 					case th != ph:
 						*partial = true
@@ -767,11 +786,11 @@ func deleteIgnoredMixed(t, p interface{}) bool {
 		if k == "" || jsonListKey(tv) != k {
 			return false
 		}
-		if k == "containerPort" || k == "port" {
+		if sk := secondaryKey(k); sk != "" {
 			spelled := false
 			for _, l := range [][]interface{}{tv, pv} {
 				for _, e := range l {
-					if _, has := e.(map[string]interface{})["protocol"]; has {
+					if _, has := e.(map[string]interface{})[sk]; has {
 						spelled = true
 					}
 				}
@@ -781,12 +800,12 @@ func deleteIgnoredMixed(t, p interface{}) bool {
 			}
 			for _, pe := range pv {
 				pm := pe.(map[string]interface{})
-				if _, has := pm["protocol"]; has || directiveOf(pm) != "delete" {
+				if _, has := pm[sk]; has || directiveOf(pm) != "delete" {
 					continue
 				}
 				for _, te := range tv {
 					tm := te.(map[string]interface{})
-					if _, has := tm["protocol"]; !has && fmt.Sprint(tm[k]) == fmt.Sprint(pm[k]) {
+					if _, has := tm[sk]; !has && fmt.Sprint(tm[k]) == fmt.Sprint(pm[k]) {
 						return true
 					}
 				}
